@@ -7,15 +7,17 @@ that do not change during the op. -/
 structure Amb (s : Shape) (X0 : PBuf) : Prop where
   ok : s.ok = true
   nd : ∀ d i, s ≠ .disc d i
-  big : X0.base + 2 * (X0.mem.orig + maxIncrease) < Shape.usizeLim
-  far : X0.mem.orig + maxIncrease ≤ X0.base
+  addr : AddrOk X0.base X0.mem.orig
+
+theorem Amb.big {s X0} (a : Amb s X0) : X0.base + 2 * (X0.mem.orig + maxIncrease) < Shape.usizeLim := a.addr.2
+theorem Amb.far {s X0} (a : Amb s X0) : X0.mem.orig + maxIncrease ≤ X0.base := a.addr.1
 
 /-- The byte-level context of an intermediate state `m` of a multi-resize op. -/
 theorem Amb.ctx {s : Shape} {X0 : PBuf} (a : Amb s X0) (w0 : World) {v : Val} {π : List Step} {t : Shape} {u : Val}
     {m : Mem} (F : Focus s v π t u m) (cm : Calm m) (ho : m.orig = X0.mem.orig) :
     PCtx ⟨{ X0 with mem := m }, w0.b⟩ .A s v :=
-  ⟨F.good, a.ok, a.nd, F.bytes, cm, ownsOwn_A _, by simp only [World.get]; rw [ho]; exact a.big,
-    by simp only [World.get]; rw [ho]; exact a.far⟩
+  ⟨F.good, a.ok, a.nd, F.bytes, cm, ownsOwn_A _, ⟨by simp only [World.get]; rw [ho]; exact a.far,
+    by simp only [World.get]; rw [ho]; exact a.big⟩⟩
 
 theorem run_setInsertAll {s : Shape} {X0 : PBuf} (a : Amb s X0) (w0 : World) (π : List Step) (e : Fixed) (lw : Nat)
     (T : PtrTree) (xs : List (List Nat)) :
